@@ -4,6 +4,7 @@
   the plugin grease name — is a regenerated fact checked in Tie/C06.lean.)
 -/
 import Proofs.FileWrite
+import Proofs.ToyPrims
 import Proofs.StreamTamper
 namespace AgeModel
 namespace Props.C06
@@ -202,6 +203,11 @@ theorem chunk_flags (C : Nat) (hC : 0 < C) : ∀ (fuel i : Nat) (p : Bytes), p.l
       refine ⟨n+1, ?_⟩
       simp only [List.map_cons, hn, List.range_succ_eq_map, List.map_cons, List.map_map]
       simp [Nat.add_assoc, Nat.add_comm 1]
+
+/-- non-vacuity of `tape_linear` / `two_files_disjoint`: the header of a two-recipient file is built from a
+    concrete tape (toy primitives) -/
+example : (encryptHeader Prims.toy (List.replicate 100 7)
+    [Recipient.x25519 (List.replicate 32 0), Recipient.sshEd [1] (List.replicate 32 3)]).isOk = true := by decide
 
 end Props.C06
 end AgeModel
